@@ -150,15 +150,29 @@ func TestVerifC20(t *testing.T) {
 	}
 	type base struct {
 		name, cwd, prefix string
+		// logical: the spelling of the working directory a shell would have put in $PWD after
+		// `cd` through a symbolic link ("" = the physical directory)
+		logical string
 	}
 	bases := []base{
-		{"abs-fixture", "/", fix + "/"},
-		{"rel-fixture", fix, ""},
-		{"rel-etc", "/etc", ""},
-		{"rel-root", "/", ""},
-		{"abs-root", "/", "/"},
-		{"rel-fixture-safe", filepath.Join(fix, "safe"), ""},
+		{"abs-fixture", "/", fix + "/", ""},
+		{"rel-fixture", fix, "", ""},
+		{"rel-etc", "/etc", "", ""},
+		{"rel-root", "/", "", ""},
+		{"abs-root", "/", "/", ""},
+		{"rel-fixture-safe", filepath.Join(fix, "safe"), "", ""},
+		{"rel-etc-entered-through-link", "/etc", "", filepath.Join(fix, "toEtc")},
+		{"rel-usrlib-entered-through-link", "/usr/lib", "", filepath.Join(fix, "toUsrLib")},
+		{"rel-safe-entered-through-link", filepath.Join(fix, "safe"), "", filepath.Join(fix, "toSafe")},
 	}
+	origPWD, hadPWD := os.LookupEnv("PWD")
+	defer func() {
+		if hadPWD {
+			os.Setenv("PWD", origPWD)
+		} else {
+			os.Unsetenv("PWD")
+		}
+	}()
 	origWd, _ := os.Getwd()
 	defer os.Chdir(origWd)
 
@@ -173,10 +187,15 @@ func TestVerifC20(t *testing.T) {
 		if p == "" {
 			return
 		}
-		if err := os.Chdir(b.cwd); err != nil {
-			r.Fail("chdir %s: %v", b.cwd, err)
+		enter := b.cwd
+		if b.logical != "" {
+			enter = b.logical
+		}
+		if err := os.Chdir(enter); err != nil {
+			r.Fail("chdir %s: %v", enter, err)
 			return
 		}
+		os.Setenv("PWD", enter) // what a shell leaves behind after `cd`
 		ref := c20Resolve(b.cwd, p, 0)
 		if ref.skip {
 			r.Count("skipped_no_agreed_meaning", 1)
